@@ -63,7 +63,6 @@ type event struct {
 	walSeg bool // write to a WAL segment file (20-digit name)
 }
 
-var reHex = regexp.MustCompile(`\\x([0-9a-f]{2})`)
 
 func unhex(s string) string {
 	var sb strings.Builder
